@@ -328,16 +328,7 @@ func (p *Prog) Reachable(roots []*ssa.Function, skipGo bool, stop func(*ssa.Func
 			seen[c] = true
 			work = append(work, c)
 		}
-		// closures created inside f are considered reachable (they may be invoked later)
-		for _, an := range f.AnonFuncs {
-			if !seen[an] && !(stop != nil && stop(an)) {
-				if skipGo && closureOnlyUsedByGo(f, an) {
-					continue
-				}
-				seen[an] = true
-				work = append(work, an)
-			}
-		}
+		_ = f
 	}
 	return seen
 }
